@@ -168,6 +168,21 @@ func c04Consumers() []c04Consumer {
 			}
 			return ok
 		}},
+		// the second consumer of session cookies: the level upgrade after a second
+		// factor, reached with a client certificate doing the authentication so that
+		// the cookie's own check in updateAuthJWTWithNewAuthLevel is the only gate
+		{Name: "upgrade-totp-with-client-cert", Kinds: sess, Use: func(x *c04World, a string) bool {
+			if x.deploy == "ecdsa" {
+				return false
+			}
+			leaf := x.w.vfIssueUserCert("alice", vfKeys.userEC.Public(), time.Hour)
+			r := x.w.Do(vfReq{Method: "POST", Path: totpAuthPath, TLS: x.w.vfTLSFor(leaf), Cookies: []*http.Cookie{{Name: authCookieName, Value: a}}, Form: url.Values{"OTP": {vfTOTPCode("alice", vclock.Now())}}}.Build())
+			ok := r.Cookie(authCookieName) != nil
+			if ok || r.Code != 401 {
+				x.resetTOTP()
+			}
+			return ok
+		}},
 		{Name: "logout", Kinds: sess, IgnoreExpiry: true, Use: func(x *c04World, a string) bool {
 			r := x.w.Do(vfReq{Method: "GET", Path: logoutPath, Cookies: []*http.Cookie{{Name: authCookieName, Value: a}}}.Build())
 			return strings.Contains(r.Header.Get("Location"), "?user=")
@@ -647,7 +662,7 @@ func init() {
 	vfRegister(&vfeng.Check{
 		ID:    "C04",
 		Level: "model_checking",
-		Rule:  "exhaustive products on the real consumers, for 4 deployments (RSA, RSA+Ed25519, ECDSA primary, RSA+extra trusted key): full producer(8) x consumer(13) matrix with artefacts produced by the server's own code paths; per artefact every single-claim removal/alteration re-signed with the real key, 20+ key/algorithm substitutions (foreign keys, embedded jwk, real kid, none, HS256/384/512 keyed with the public key in PEM/DER/SSH/modulus form, crit), and every single-byte substitution (2 values), every truncation length and every segment deletion of the compact form, delivered to the matching consumers; oracle: accept iff signature valid under a trusted key, kind matches, inside validity, issuer+audience name this server (session/CLI/storage); reject => no Set-Cookie/DB/map change",
+		Rule:  "exhaustive products on the real consumers, for 4 deployments (RSA, RSA+Ed25519, ECDSA primary, RSA+extra trusted key): full producer(8) x consumer(14) matrix with artefacts produced by the server's own code paths; per artefact every single-claim removal/alteration re-signed with the real key, 20+ key/algorithm substitutions (foreign keys, embedded jwk, real kid, none, HS256/384/512 keyed with the public key in PEM/DER/SSH/modulus form, crit), and every single-byte substitution (2 values), every truncation length and every segment deletion of the compact form, delivered to the matching consumers; oracle: accept iff signature valid under a trusted key, kind matches, inside validity, issuer+audience name this server (session/CLI/storage); reject => no Set-Cookie/DB/map change",
 		Assumptions: []string{"an alteration is a change of the decoded header/payload/signature bytes", "claims whose change yields another legitimate token when re-signed with the real key (sub, level, data...) are not mutations", "tokens signed with the real key under another algorithm, exp==now, and audiences naming this server second are observed, not judged"},
 		Shards: func(tier string) int { return 16 },
 		Run: func(c *vfeng.Ctx) {
@@ -662,7 +677,7 @@ func init() {
 						continue
 					}
 					for _, cn := range cons {
-						if deploy == "ecdsa" && (cn.Name == "upgrade-totp" || cn.Name == "token-endpoint-pkce") {
+						if deploy == "ecdsa" && (cn.Name == "upgrade-totp" || cn.Name == "upgrade-totp-with-client-cert" || cn.Name == "token-endpoint-pkce") {
 							continue // TOTP secrets and PKCE data are sealed with an RSA key only
 						}
 						matching := false
